@@ -20,9 +20,9 @@ def write_cfg(ctx, name, depth, fillto=0, countbug=False, diagbug=False, invs=No
     return p
 
 
-def mc_replays(ctx, kinds, depth, workers=12, maxref=3, salts=(1, 2), name="mc", fillto=0, invs=None, timeout=3600, defaults=False):
+def mc_replays(ctx, kinds, depth, workers=12, maxref=3, salts=(1, 2), name="mc", fillto=0, invs=None, timeout=3600, defaults=False, related=False):
     """Model check MC_Tables over `kinds` to `depth`; returns the leaf histories as harness programs."""
-    md = schema.menu_data(kinds, salts=salts, maxref=maxref, defaults=defaults)
+    md = schema.menu_data(kinds, salts=salts, maxref=maxref, defaults=defaults, related=related)
     mpath = ctx.path(name + ".menu.json")
     with open(mpath, "w") as f:
         json.dump(md, f)
@@ -79,10 +79,19 @@ def default_programs(ctx, rng, th, name="mcdef", kinds=None):
     return progs
 
 
-def related_programs(rng, th, kinds=None):
+RANGE_KINDS = ["MCFG", "VIOT", "SRAT", "CEDT", "XSDT", "HMAT"]      # tables whose entries describe ranges / windows
+
+
+def related_programs(rng, th, kinds=None, ctx=None):
     """histories in which an operation's arguments derive from the previous operation's (duplicate, next id, the range
-    that continues the previous range, a near miss of that): schema.related_programs"""
-    return schema.related_programs(rng, kinds, reps=3 if th else 1)
+    that continues the previous range, a near miss of that): schema.related_programs; with ctx also every history to
+    depth 3 of MC_Tables over menus that contain each add operation together with its continuation(s)"""
+    progs = schema.related_programs(rng, kinds, reps=3 if th else 1)
+    if ctx is not None:
+        ks = [k for k in RANGE_KINDS if kinds is None or k in kinds]
+        if ks:
+            progs += mc_replays(ctx, ks, 3, workers=8, maxref=1, salts=(1,), name="mcrel", related=True)
+    return progs
 
 
 def random_programs(rng, kinds, n, nops, maxcalls=4, defaults=False):
